@@ -52,6 +52,7 @@ pub fn run(id: &str, ctx: &Ctx) -> Report {
 pub fn probe(args: &[String]) {
     match args.first().map(|s| s.as_str()) {
         Some("deep-nest") => c16::probe_deep(args),
+        Some("decode-hex") => c16::probe_decode_hex(args),
         Some("c02-debug") => {
             let scratch = std::path::PathBuf::from("/dev/shm/vh-debug");
             let _ = std::fs::create_dir_all(&scratch);
